@@ -147,13 +147,13 @@ def run_scenario(scn):
         smdp = SemiMarkovDecisionProcess(mdp=mdp, options=opts, n_option_simulations=P.get("n_sims", 5), seed=seed)
         out = {}
         for s in sorted(set(range(ref.n))):
-            for o, ospec in zip(opts, P["options"]):
+            for oi, (o, ospec) in enumerate(zip(opts, P["options"])):
                 if s in ospec["term"]:
                     continue
                 try:
-                    out[(s, o.name)] = dict(smdp.next_state_transit_time_reward_dist(view.S[s], o).items())
+                    out[(s, oi, o.name)] = dict(smdp.next_state_transit_time_reward_dist(view.S[s], o).items())
                 except Exception as e:
-                    out[(s, o.name)] = type(e).__name__
+                    out[(s, oi, o.name)] = type(e).__name__
         return digest(out)
     if comp == "implicit":
         from msdm.core.distributions import ImplicitDistribution
